@@ -250,10 +250,37 @@ theorem run_inv (prog : Prog) (ord : Oracle) (s : St) (cmds : List Cmd) (h : Inv
     simp only [run, List.foldl_cons] at this ⊢
     exact ⟨this.1, by omega⟩
 
+theorem execH_log' (s : St) (cs : List HCmd) : (execH s cs).log = s.log := by
+  induction cs generalizing s with
+  | nil => rfl
+  | cons c cs ih =>
+    cases c with
+    | sched r =>
+      simp only [execH]; rw [ih]
+      unfold sched; split
+      · rfl
+      · split <;> rfl
+    | cancel k => simp only [execH]; rw [ih]; rfl
+
+theorem runInits_inv (prog : Prog) (k : Nat) (s : St) (h : Inv s) :
+    Inv (runInits prog k s) ∧ (runInits prog k s).now = s.now ∧ (runInits prog k s).log = s.log := by
+  induction k with
+  | zero => exact ⟨h, rfl, rfl⟩
+  | succ k ih =>
+    simp only [runInits]
+    have := execH_inv (runInits prog k s) (prog.handler (initAid k) k (runInits prog k s).now) ih.1
+    exact ⟨this.1, this.2.trans ih.2.1, (execH_log' _ _).trans ih.2.2⟩
+
 theorem init_inv (prog : Prog) (t0 : Nat) (tol : Option Nat) : Inv (initSim prog t0 tol) := by
   unfold initSim
   have h0 : Inv (writeTime t0 (St.init t0 tol)) := by
     refine ⟨?_, ?_, ?_, ?_⟩ <;> simp [writeTime, St.init, Sorted]
-  exact (doSync_inv prog t0 _ h0).1
+  exact (runInits_inv prog _ _ (doSync_inv prog t0 _ h0).1).1
+
+theorem init_now (prog : Prog) (t0 : Nat) (tol : Option Nat) : (initSim prog t0 tol).now = t0 := by
+  unfold initSim
+  have h0 : Inv (writeTime t0 (St.init t0 tol)) := by
+    refine ⟨?_, ?_, ?_, ?_⟩ <;> simp [writeTime, St.init, Sorted]
+  rw [(runInits_inv prog _ _ (doSync_inv prog t0 _ h0).1).2.1, (doSync_inv prog t0 _ h0).2.1]; rfl
 
 end NexoVerif.Sched
